@@ -39,6 +39,8 @@ Definition frame_of (b : bytes) : option frame :=
                f_total := round8 (16 + spec_u32 big 12 b) + spec_u32 big 4 b |}
   else None.
 
+Definition is_nil {A} (l : list A) : bool := match l with [] => true | _ => false end.
+
 Definition optN (u : option N) : N := match u with Some n => n | None => 0 end.
 
 (* a message the reader has to deliver: well-framed, of the declared size, not above the limit, its header
@@ -70,38 +72,6 @@ Fixpoint number (n : N) (ms : list smsg) : list out :=
   end.
 Definition expected (ms : list smsg) : list out := number 1 ms ++ [OErr EIo].
 
-(* ---- the known deviation class.  [leftover_fds ms cut] = descriptors of the messages whose first byte lies in
-   the first [cut] bytes of the stream (what the handshake hands over as already_received_fds).
-   Known_C14: among the messages whose first byte the handshake already read there is one WITHOUT descriptors
-   that is followed by one WITH descriptors. ---- *)
-Definition is_nil {A} (l : list A) : bool := match l with [] => true | _ => false end.
-
-Fixpoint leftover_fds (ms : list smsg) (cut : nat) : list fd :=
-  match ms with
-  | [] => []
-  | m :: r => match cut with
-              | O => []
-              | S _ => sm_fds m ++ leftover_fds r (cut - length (sm_bytes m))
-              end
-  end.
-
-Fixpoint known_c14 (ms : list smsg) (cut : nat) : bool :=
-  match ms with
-  | [] => false
-  | m :: r => match cut with
-              | O => false
-              | S _ => (is_nil (sm_fds m) && negb (is_nil (leftover_fds r (cut - length (sm_bytes m)))))
-                       || known_c14 r (cut - length (sm_bytes m))
-              end
-  end.
-
-Definition Known_C14 (ms : list smsg) (cut : nat) : Prop := known_c14 ms cut = true.
-
 (* every oracle that only ever answers with byte counts (the transport contract for a live connection) *)
 Definition bytes_oracle (k : nat -> N) : oracle := fun c => ABytes (k c).
 
-(* the full statement of the property (refuted on this tree by Proofs.leftover_fd_refuted; see C14_frames_partial) *)
-Definition C14_full_statement : Prop :=
-  forall (pf : parse_fields) (ms : list smsg) (cut : nat) (k : nat -> N),
-    Forall (valid_msg pf) ms ->
-    fst (run_reader pf (bytes_oracle k) (wire ms) cut) = expected ms.
